@@ -47,6 +47,12 @@ enum Step {
 	/// the overflowing notifications and the server's close notification for the same subscription arrive back to back
 	/// (the client's own close request for the lagging subscription is still queued when the server's close is handled)
 	LagThenServerClose { slot: usize, in_array: bool },
+	/// ONE array that carries: the overflowing notifications of `lag` (its close request is produced while the array is
+	/// being worked through), then the server's close of ANOTHER subscription `close`, then (with_call) the answer to a
+	/// pending call or (with_batch) the answers of a pending batch - everything behind the overflowing item still counts.
+	/// (with_call is never generated: responses inside an array are a batch reply by definition, the answer to a single
+	/// call does not belong there - the client rightly gives such a connection up)
+	MixedArray { lag: usize, close: usize, with_call: bool, with_batch: bool },
 	Notify(usize),
 	RegisterHandler(usize),
 	UnregisterHandler(usize),
@@ -354,6 +360,70 @@ async fn run_spec(spec: &Spec) -> Out {
 						out.history.push(format!("server floods slot {slot} and closes it at once (in one array: {in_array})"));
 						w.live[*slot] = false;
 						out.subs_ended += 1;
+					}
+				}
+			}
+			Step::MixedArray { lag, close, with_call, with_batch } => {
+				let lag_id = match (w.live[*lag], w.handles[*lag].is_some(), w.sub_ids[*lag].clone()) {
+					(true, true, Some(id)) => id,
+					_ => continue,
+				};
+				let close_id = if close != lag && w.live[*close] { w.sub_ids[*close].clone() } else { None };
+				let mut parts: Vec<String> = (0..BUFFER + 1).map(|k| sub_notif("m", &lag_id, json!(k))).collect();
+				if let Some(id) = &close_id {
+					parts.push(sub_close("m", id, json!("bye")));
+				}
+				let mut call_task = None;
+				let mut batch_task = None;
+				if *with_call {
+					let c = w.client.clone();
+					call_task = Some(tokio::spawn(async move { c.request::<Value, _>("call", rpc_params!["mixed"]).await.map_err(|e| err_kind(&e)) }));
+				}
+				if *with_batch {
+					let c = w.client.clone();
+					batch_task = Some(tokio::spawn(async move {
+						let mut b = BatchRequestBuilder::new();
+						for j in 0..2 {
+							b.insert("call", rpc_params![j]).unwrap();
+						}
+						let r: Result<BatchResponse<Value>, _> = c.batch_request(b).await;
+						r.map(|r| r.len()).map_err(|e| err_kind(&e))
+					}));
+				}
+				settle().await;
+				for m in w.drain(&mut out) {
+					match m {
+						WireMsg::Single(q) => {
+							if let Some(id) = &q.id {
+								parts.push(ok_response(id, json!("answered inside the array")));
+							}
+						}
+						WireMsg::Batch(reqs) => {
+							for q in reqs {
+								parts.push(ok_response(q.id.as_ref().unwrap_or(&Value::Null), json!(1)));
+							}
+						}
+						_ => {}
+					}
+				}
+				out.history.push(format!("server -> one array: {} overflowing notifications for slot {lag}, close of slot {close}: {}, {} further answer(s)", BUFFER + 1, close_id.is_some(), parts.len() - BUFFER - 1 - close_id.is_some() as usize));
+				w.srv.push_text(array_of(&parts));
+				w.live[*lag] = false;
+				out.subs_ended += 1;
+				if close_id.is_some() {
+					w.live[*close] = false;
+					out.subs_ended += 1;
+				}
+				if let Some(t) = call_task {
+					match tokio::time::timeout(Duration::from_secs(30), t).await {
+						Ok(Ok(Ok(_))) => {}
+						other => bad!("call-not-completed/answered-in-an-array-behind-an-overflowing-notification", "{other:?}"),
+					}
+				}
+				if let Some(t) = batch_task {
+					match tokio::time::timeout(Duration::from_secs(30), t).await {
+						Ok(Ok(Ok(2))) => {}
+						other => bad!("batch-not-completed/answered-in-an-array-behind-an-overflowing-notification", "{other:?}"),
 					}
 				}
 			}
@@ -735,6 +805,108 @@ async fn unsub_write_refused_case(seed: u64) -> (Vec<(String, String)>, bool, us
 	(violations, true, unsubs_written)
 }
 
+/// Directed scenario: the transport's `send` completes late - the bytes are visible to the server at once, the future
+/// returns some milliseconds afterwards (a slow flush, back-pressure). The server acknowledges the unsubscribe call as
+/// soon as it sees it, i.e. while the client's send task is still inside that `send`. Once the send has returned and
+/// everything is acknowledged the tables must be empty, cycle after cycle.
+async fn slow_send_case(seed: u64, cycles: usize) -> (Vec<(String, String)>, [usize; 4], usize) {
+	let mut violations = Vec::new();
+	let mut r = Rng::new(seed);
+	let variant = r.below(3);
+	let label = ["drop", "unsubscribe", "lag"][variant as usize];
+	let (client, mut srv) = jrv::clientsim::client(ClientCfg { sub_buffer: BUFFER, string_ids: r.bool(), build_path: r.below(4) as u8, ..Default::default() });
+	let mut acked = 0usize;
+	for cyc in 0..cycles {
+		let c = client.clone();
+		let t = tokio::spawn(async move { c.subscribe::<Value, _>("sub", rpc_params!["s"], "unsub").await });
+		settle().await;
+		let sub_id = if r.bool() { json!(format!("ss-{cyc}")) } else { json!(5000 + cyc) };
+		for m in srv.drain_out() {
+			if let ClientOut::Msg { text, .. } = m {
+				if let WireMsg::Single(q) = parse_wire(&text) {
+					srv.push_text(ok_response(q.id.as_ref().unwrap_or(&Value::Null), sub_id.clone()));
+				}
+			}
+		}
+		let Ok(Ok(Ok(h))) = tokio::time::timeout(Duration::from_secs(30), t).await else {
+			violations.push(("subscribe-failed/accepted".into(), "setup of the slow-send scenario".into()));
+			break;
+		};
+		settle().await;
+		// from now on every send lingers
+		let linger = 2 + r.below(6);
+		*srv.ctl.linger_after_send.lock().unwrap() = Some(Duration::from_millis(linger));
+		let mut held = Some(h);
+		let mut unsub_task = None;
+		match variant {
+			0 => drop(held.take()),
+			1 => {
+				let h = held.take().unwrap();
+				unsub_task = Some(tokio::spawn(async move { h.unsubscribe().await.map_err(|e| err_kind(&e)) }));
+			}
+			_ => {
+				for k in 0..BUFFER + 1 {
+					srv.push_text(sub_notif("m", &sub_id, json!(k)));
+				}
+			}
+		}
+		// the server answers the unsubscribe call the moment it is visible
+		let mut seen_unsub = false;
+		for _ in 0..40 {
+			tokio::task::yield_now().await;
+			for m in srv.drain_out() {
+				if let ClientOut::Msg { text, .. } = m {
+					if let WireMsg::Single(q) = parse_wire(&text) {
+						if q.method == "unsub" {
+							seen_unsub = true;
+							acked += 1;
+						}
+						if let Some(id) = &q.id {
+							srv.push_text(ok_response(id, json!(true)));
+						}
+					}
+				}
+			}
+			if seen_unsub {
+				break;
+			}
+		}
+		if !seen_unsub {
+			// (not yet written: let virtual time pass and answer then)
+			settle().await;
+			for m in srv.drain_out() {
+				if let ClientOut::Msg { text, .. } = m {
+					if let WireMsg::Single(q) = parse_wire(&text) {
+						if q.method == "unsub" {
+							acked += 1;
+						}
+						if let Some(id) = &q.id {
+							srv.push_text(ok_response(id, json!(true)));
+						}
+					}
+				}
+			}
+		}
+		tokio::time::sleep(Duration::from_millis(linger + 3)).await;
+		*srv.ctl.linger_after_send.lock().unwrap() = None;
+		if let Some(t) = unsub_task {
+			let _ = tokio::time::timeout(Duration::from_secs(30), t).await;
+		}
+		drop(held);
+		settle().await;
+		settle().await;
+		let sizes = client.verif_table_sizes();
+		if sizes != [0, 0, 0, 0] {
+			violations.push((
+				format!("tables-not-empty-when-idle/send-completes-after-the-acknowledgement+{label}"),
+				format!("cycle {cyc}: the unsubscribe call was acknowledged while the transport's send() had not returned yet ({linger} ms); afterwards the tables hold {sizes:?} (requests, subscriptions, batches, handlers)"),
+			));
+			break;
+		}
+	}
+	(violations, client.verif_table_sizes(), acked)
+}
+
 /// Which kind of cycle the history contained (for signatures): the last subscription-ending step kinds seen.
 fn leak_feature(steps: &[Step]) -> String {
 	let mut f: Vec<&str> = Vec::new();
@@ -751,6 +923,7 @@ fn leak_feature(steps: &[Step]) -> String {
 			Step::ServerClose { .. } => "server-close",
 			Step::LagClose(_) => "lag",
 			Step::LagThenServerClose { .. } => "lag+server-close",
+			Step::MixedArray { .. } => "lag-inside-a-mixed-array",
 			Step::AckError(_) => "unsubscribe-error-ack",
 			_ => continue,
 		};
@@ -779,7 +952,11 @@ fn gen_spec(seed: u64) -> Spec {
 			10 | 11 => Step::Unsubscribe(r.usize(SLOTS)),
 			12 | 13 => Step::Drop(r.usize(SLOTS)),
 			14 | 15 => Step::ServerClose { slot: r.usize(SLOTS), in_array: r.bool() },
-			16 => if r.bool() { Step::LagClose(r.usize(SLOTS)) } else { Step::LagThenServerClose { slot: r.usize(SLOTS), in_array: r.bool() } },
+			16 => match r.below(3) {
+				0 => Step::LagClose(r.usize(SLOTS)),
+				1 => Step::LagThenServerClose { slot: r.usize(SLOTS), in_array: r.bool() },
+				_ => Step::MixedArray { lag: r.usize(SLOTS), close: r.usize(SLOTS), with_call: false, with_batch: r.bool() },
+			},
 			17 => Step::Notify(r.usize(SLOTS)),
 			18 => Step::RegisterHandler(r.usize(SLOTS)),
 			19 => Step::UnregisterHandler(r.usize(SLOTS)),
@@ -820,6 +997,14 @@ fn directed_specs(reps: usize) -> Vec<(Spec, String)> {
 			],
 		),
 		("duplicate-sub-id", vec![Step::Subscribe(0, SubAnswer::Accept), Step::Subscribe(1, SubAnswer::DuplicateSubId), Step::Unsubscribe(0), Step::Ack(0)]),
+		(
+			"lag-inside-a-mixed-array-with-close",
+			vec![Step::Subscribe(0, SubAnswer::Accept), Step::Subscribe(1, SubAnswer::Accept), Step::MixedArray { lag: 0, close: 1, with_call: false, with_batch: false }, Step::Ack(0), Step::Drop(0), Step::Drop(1)],
+		),
+		(
+			"lag-inside-a-mixed-array-with-batch",
+			vec![Step::Subscribe(0, SubAnswer::Accept), Step::MixedArray { lag: 0, close: 0, with_call: false, with_batch: true }, Step::Ack(0), Step::Drop(0)],
+		),
 		("handler-register-unregister", vec![Step::RegisterHandler(0), Step::RegisterHandler(1), Step::UnregisterHandler(0), Step::UnregisterHandler(1)]),
 	];
 	for (name, cyc) in cycles {
@@ -916,7 +1101,7 @@ fn main() {
 		replay_class = Some(class.clone());
 		replay_seed = w["witness"]["seed"].as_u64();
 		replay_cycles = w["witness"]["cycles"].as_u64().map(|c| c as usize);
-		if class == "full-queue" || class == "unsub-write-refused" {
+		if class == "full-queue" || class == "unsub-write-refused" || class == "slow-send" {
 			// replayed by the directed families below
 		} else if class == "seeded" {
 			specs.push((gen_spec(w["witness"]["seed"].as_u64().expect("seed")), class));
@@ -950,6 +1135,25 @@ fn main() {
 			ev.nontrivial(&("full-queue-drop", s));
 			for (sig, d) in v {
 				violations.push(Violation::new(sig, d, json!({"scenario": "drop with a full request queue", "seed": s, "cycles": cycles, "class": "full-queue"})));
+			}
+		}
+	}
+	if !replay || replay_class.as_deref() == Some("slow-send") {
+		let jobs: Vec<(u64, usize)> = match (&replay_seed, replay) {
+			(Some(s), true) => vec![(*s, replay_cycles.unwrap_or(3))],
+			_ => (0..ctx.tier.pick(300u64, 20_000)).map(|i| (Rng::fork(ctx.seed, 90_000_000 + i).next_u64(), if i % 50 == 0 { 100 } else { 1 + (i % 4) as usize })).collect(),
+		};
+		let res = run_parallel(jobs, |_, (s, cycles)| (s, cycles, block_on_virtual(slow_send_case(s, cycles))));
+		for (s, cycles, (v, _sizes, acked)) in res {
+			ev.eval();
+			ev.count("cases_send_completes_after_the_acknowledgement", 1);
+			ev.count("slow_send_cycles", cycles as u64);
+			ev.count("slow_send_unsubscribes_acknowledged_during_the_send", acked as u64);
+			if acked > 0 {
+				ev.nontrivial(&("slow-send", s));
+			}
+			for (sig, d) in v {
+				violations.push(Violation::new(sig, d, json!({"scenario": "the unsubscribe call is acknowledged before the transport's send returns", "seed": s, "cycles": cycles, "class": "slow-send"})));
 			}
 		}
 	}
